@@ -35,7 +35,8 @@ Fixpoint nodup_keys (seen : list (bool * (str * str))) (l : list attr) : bool :=
   end.
 
 Definition elem_wf (name : qname) (attrs : list attr) : bool :=
-  name_wf name && fixed_wf (qprefix name) (qns name) && forallb attr_wf attrs && nodup_keys [] attrs.
+  name_wf name && fixed_wf (qprefix name) (qns name) && forallb attr_wf attrs && nodup_keys [] attrs &&
+  elem_cons name attrs.
 
 Definition is_text (n : xnode) : bool := match n with XText _ => true | _ => false end.
 
@@ -322,25 +323,26 @@ Proof. intros. unfold add_kids. simpl. rewrite app_assoc. reflexivity. Qed.
 Lemma add_kids_nil : forall f, add_kids f [] = f.
 Proof. destruct f; reflexivity. Qed.
 
-(* the shape of the declaration list start_elem writes *)
-Lemma start_elem_g_decls : forall st ph name attrs decls st2 ph2 f,
-  start_elem_g st ph name attrs = (IStart name decls attrs, st2, ph2, f) ->
-  decls = [] \/ decls = [(qprefix name, Some (qns name))].
-Proof.
-  intros st ph name attrs decls st2 ph2 f S. unfold start_elem_g in S.
-  destruct (reg_attrs_g (find_or_insert_ns (nm_empty :: st) name) ([] :: ph) attrs) as [[s2 p2] fa].
-  injection S as DE _ _ _. subst decls. unfold find_or_insert_ns.
-  destruct ((negb (is_none (qprefix name)) || negb (is_nil (qns name))) && negb (s_find_uri (nm_empty :: st) name));
-    [right|left]; reflexivity.
-Qed.
+(* the declaration list start_elem writes holds bindings of the tag's own names only *)
+Definition decls_from (name : qname) (attrs : list attr) (decls : nsmap) : Prop :=
+  forall kv, In kv decls -> exists q, In q (tag_names name attrs) /\ kv = (qprefix q, Some (qns q)).
 
-Lemma decls_wf_of : forall name decls, name_wf name = true -> fixed_wf (qprefix name) (qns name) = true ->
-  (decls = [] \/ decls = [(qprefix name, Some (qns name))]) -> decls_wf decls = true.
+Lemma decls_wf_of : forall name attrs decls, elem_wf name attrs = true ->
+  decls_from name attrs decls -> decls_wf decls = true.
 Proof.
-  intros name decls W F [D|D]; subst decls; [reflexivity|].
-  unfold decls_wf. simpl. rewrite F. rewrite andb_true_r.
-  destruct (qprefix name) as [p|] eqn:P; [|reflexivity].
-  rewrite (name_wf_key name p W P). reflexivity.
+  intros name attrs decls EW DF.
+  unfold elem_wf in EW. apply andb_true_iff in EW. destruct EW as [EW _].
+  apply andb_true_iff in EW. destruct EW as [EW _].
+  apply andb_true_iff in EW. destruct EW as [EW AW]. apply andb_true_iff in EW. destruct EW as [NW FW].
+  assert (Q : forall q, In q (tag_names name attrs) -> name_wf q = true /\ fixed_wf (qprefix q) (qns q) = true).
+  { intros q [E|I]; [subst; auto|]. apply in_map_iff in I. destruct I as (a & E & Ia). subst q.
+    apply filter_In in Ia. destruct Ia as [Ia _]. rewrite forallb_forall in AW. specialize (AW a Ia).
+    unfold attr_wf in AW. apply andb_true_iff in AW. destruct AW as [AW _].
+    apply andb_true_iff in AW. destruct AW as [AW F2]. apply andb_true_iff in AW. destruct AW as [_ N2]. auto. }
+  unfold decls_wf. apply forallb_forall. intros kv I. destruct (DF kv I) as (q & Iq & E). subst kv.
+  destruct (Q q Iq) as [W F]. simpl. rewrite F, andb_true_r.
+  destruct (qprefix q) as [p|] eqn:P; [|reflexivity].
+  rewrite (name_wf_key q p W P). reflexivity.
 Qed.
 
 Lemma RELs_cons : forall hon ctx decls attrs, RELs hon ctx -> decls_wf decls = true ->
@@ -379,16 +381,17 @@ Lemma start_tag_step : forall s hon name attrs decls,
   ((tphase s = PMain /\ topen s <> []) \/ (tphase s = PStart /\ topen s = [])) ->
   RELs hon (ctx_of (topen s)) ->
   elem_wf name attrs = true ->
-  (decls = [] \/ decls = [(qprefix name, Some (qns name))]) ->
+  decls_from name attrs decls ->
   name_bound (decls :: hon) name = true -> forallb (attr_bound (decls :: hon)) attrs = true ->
   let s' := step s (tokenize (item_rtoken (IStart name decls attrs))) in
   Live s' /\ tphase s' = PMain /\ tdoc s' = tdoc s /\ tpost s' = tpost s /\
   topen s' = mkf name attrs (qual name, item_raws decls attrs) [] :: topen s.
 Proof.
   intros s hon name attrs decls L PH R EW DS NB AB.
-  unfold elem_wf in EW. apply andb_true_iff in EW. destruct EW as [EW ND].
+  pose proof (decls_wf_of name attrs decls EW DS) as DW.
+  unfold elem_wf in EW. apply andb_true_iff in EW. destruct EW as [EW _].
+  apply andb_true_iff in EW. destruct EW as [EW ND].
   apply andb_true_iff in EW. destruct EW as [EW AW]. apply andb_true_iff in EW. destruct EW as [NW FW].
-  pose proof (decls_wf_of name decls NW FW DS) as DW.
   pose proof (RELs_cons hon _ decls attrs R DW AW) as R'.
   cbn [item_rtoken tokenize]. fold (item_raws decls attrs).
   set (src := (qual name, item_raws decls attrs)).
@@ -448,77 +451,74 @@ Qed.
 Definition live_at (s : tb) (f : frame) (r : list frame) : Prop :=
   Live s /\ tphase s = PMain /\ topen s = f :: r.
 
-(* the subtree of a clean, well-shaped node comes back as the same node, appended to the current element *)
-Lemma node_roundtrip : forall n st ph hon items st' ph' s f r,
+(* the subtree of a well-shaped node comes back as the same node, appended to the current element *)
+Lemma node_roundtrip : forall n st items st' s f r,
   node_wf n = true -> (match n with XDoctype _ _ _ => false | _ => true end) = true ->
   negb (starts_text (fkids f) && is_text n) = true ->
-  J st ph hon -> ser_node_g n st ph = (items, st', ph', false) ->
-  live_at s f r -> RELs hon (ctx_of (f :: r)) ->
+  no_none st -> ser_node n st = (items, st') ->
+  live_at s f r -> RELs st (ctx_of (f :: r)) ->
   exists b, live_at (run_from s (toks items)) (add_kids f [b]) r /\
             tdoc (run_from s (toks items)) = tdoc s /\ tpost (run_from s (toks items)) = tpost s /\
-            erase b = n /\ b_is_text b = is_text n /\ J st' ph' hon.
+            erase b = n /\ b_is_text b = is_text n /\ st' = st.
 Proof.
-  fix IH 1. intros n st ph hon items st' ph' s f r WF ND NT HJ SG (L & PH & O) R.
+  fix IH 1. intros n st items st' s f r WF ND NT HN SG (L & PH & O) R.
   destruct n as [name attrs kids|t|c|tg d|nm pb sy]; try discriminate ND.
   - (* element *)
-    rewrite ser_node_g_elem in SG.
-    destruct (start_elem_g_item st ph name attrs) as [decls DI].
-    destruct (start_elem_g st ph name attrs) as [[[i1 st1] ph1] f1] eqn:SE. simpl in DI. subst i1.
-    destruct (ser_nodes_g kids st1 ph1) as [[[is st2] ph2] f2] eqn:SK.
-    destruct (end_elem_g st2 ph2 name) as [[i2 st3] ph3] eqn:EE.
-    injection SG as E0 E1 E2 E3. subst items st' ph'.
-    apply orb_false_iff in E3. destruct E3 as [F1 F2]. subst f1 f2.
-    destruct (start_elem_g_ok _ _ _ _ _ _ _ _ _ HJ SE eq_refl) as (NB & AB & J1).
-    destruct (end_elem_g_ok _ _ _ _ _ _ _ (proj2 (ser_nodes_g_ok kids _ _ _ _ _ _ _ J1 SK eq_refl)) EE) as [EI J3].
-    subst i2. simpl in J3.
     cbn [node_wf] in WF. apply andb_true_iff in WF. destruct WF as [WF WK].
     apply andb_true_iff in WF. destruct WF as [EW KS].
-    pose proof (start_elem_g_decls _ _ _ _ _ _ _ _ SE) as DS.
+    assert (EC : elem_cons name attrs = true).
+    { unfold elem_wf in EW. apply andb_true_iff in EW. apply EW. }
+    rewrite ser_node_elem in SG.
+    destruct (start_elem_ok st name attrs HN EC) as (decls & SE & N1 & NB & AB & DS). rewrite SE in SG.
+    destruct (ser_nodes kids (decls :: st)) as [is st2] eqn:SK. simpl in SG.
+    injection SG as E0 E1. subst items st'.
     (* start tag *)
     change (toks (IStart name decls attrs :: is ++ [IEnd name]))
       with (tokenize (item_rtoken (IStart name decls attrs)) :: toks (is ++ [IEnd name])).
     cbn [run_from fold_left]. fold (run_from (step s (tokenize (item_rtoken (IStart name decls attrs)))) (toks (is ++ [IEnd name]))).
-    destruct (start_tag_step s hon name attrs decls L) as (L1 & P1 & D1 & T1 & O1); auto.
+    destruct (start_tag_step s st name attrs decls L) as (L1 & P1 & D1 & T1 & O1); auto.
     { left. split; auto. rewrite O. discriminate. }
     { rewrite O. exact R. }
     set (s1 := step s (tokenize (item_rtoken (IStart name decls attrs)))) in *.
     set (f0 := mkf name attrs (qual name, item_raws decls attrs) []) in *.
     (* children *)
-    assert (EWc := EW). unfold elem_wf in EWc. apply andb_true_iff in EWc. destruct EWc as [EWc _].
-    apply andb_true_iff in EWc. destruct EWc as [EWc AW]. apply andb_true_iff in EWc. destruct EWc as [NW FW].
-    assert (R1 : RELs (decls :: hon) (ctx_of (f0 :: f :: r))).
+    assert (AW : forallb attr_wf attrs = true).
+    { unfold elem_wf in EW. apply andb_true_iff in EW. destruct EW as [EW _].
+      apply andb_true_iff in EW. destruct EW as [EW _]. apply andb_true_iff in EW. apply EW. }
+    assert (R1 : RELs (decls :: st) (ctx_of (f0 :: f :: r))).
     { apply RELs_cons; auto. eapply decls_wf_of; eauto. }
-    assert (K : forall l st ph is st' ph' s fr,
+    assert (K : forall l is st' s fr,
                (fix all (l : list xnode) : bool := match l with [] => true | k :: r => node_wf k && all r end) l = true ->
                kids_shape (starts_text (fkids fr)) l = true ->
-               J st ph (decls :: hon) -> ser_nodes_g l st ph = (is, st', ph', false) ->
+               ser_nodes l (decls :: st) = (is, st') ->
                live_at s fr (f :: r) -> fsrc fr = fsrc f0 ->
                exists bs, live_at (run_from s (toks is)) (add_kids fr bs) (f :: r) /\
                           tdoc (run_from s (toks is)) = tdoc s /\ tpost (run_from s (toks is)) = tpost s /\
-                          map erase (rev bs) = l /\ J st' ph' (decls :: hon)).
-    { induction l as [|k rest IHl]; intros sa pa isx sb pb sx fr WA KSx Ja Sx LA SRC.
-      - simpl in Sx. injection Sx as E0 E1 E2. subst isx sb pb. exists []. rewrite add_kids_nil.
+                          map erase (rev bs) = l /\ st' = decls :: st).
+    { induction l as [|k rest IHl]; intros isx sb sx fr WA KSx Sx LA SRC.
+      - simpl in Sx. injection Sx as E0 E1. subst isx sb. exists []. rewrite add_kids_nil.
         simpl. repeat split; auto; apply LA.
-      - simpl in Sx. destruct (ser_node_g k sa pa) as [[[a sa1] pa1] fa] eqn:SN.
-        destruct (ser_nodes_g rest sa1 pa1) as [[[b sa2] pa2] fb] eqn:SR.
-        injection Sx as E0 E1 E2 E3. subst isx sb pb. apply orb_false_iff in E3. destruct E3 as [Fa Fb]. subst fa fb.
+      - cbn [ser_nodes] in Sx. destruct (ser_node k (decls :: st)) as [a sa1] eqn:SN.
         apply andb_true_iff in WA. destruct WA as [WA1 WA].
         cbn [kids_shape] in KSx. apply andb_true_iff in KSx. destruct KSx as [KS1 KS2].
         apply andb_true_iff in KS1. destruct KS1 as [KS1 KD].
         destruct LA as (LA & PA & OA).
-        destruct (IH k sa pa (decls :: hon) a sa1 pa1 sx fr (f :: r) WA1 KD KS1 Ja SN (conj LA (conj PA OA)))
+        destruct (IH k (decls :: st) a sa1 sx fr (f :: r) WA1 KD KS1 N1 SN (conj LA (conj PA OA)))
           as (bk & LB & DB & TB & EB & XB & JB).
         { unfold ctx_of in *. simpl. simpl in R1. rewrite SRC. exact R1. }
-        destruct (IHl sa1 pa1 b sa2 pa2 (run_from sx (toks a)) (add_kids fr [bk]) WA) as (bs & LC & DC & TC & EC & JC); auto.
+        subst sa1.
+        destruct (ser_nodes rest (decls :: st)) as [b sa2] eqn:SR.
+        injection Sx as E0 E1. subst isx sb.
+        destruct (IHl b sa2 (run_from sx (toks a)) (add_kids fr [bk]) WA) as (bs & LC & DC & TC & EC' & JC); auto.
         { unfold add_kids. simpl fkids. simpl app.
           replace (starts_text (bk :: fkids fr)) with (is_text k)
             by (rewrite <- XB; destruct bk; reflexivity).
           exact KS2. }
         exists (bs ++ [bk]). rewrite toks_app, run_from_app. rewrite add_kids_add in LC.
         split; [exact LC|]. split; [congruence|]. split; [congruence|]. split; [|exact JC].
-        rewrite rev_app_distr. simpl. rewrite EB, EC. reflexivity. }
+        rewrite rev_app_distr. simpl. rewrite EB, EC'. reflexivity. }
     rewrite toks_app, run_from_app. rewrite O in O1.
-    destruct (K kids st1 ph1 is st2 ph2 s1 f0 WK KS J1 SK (conj L1 (conj P1 O1)) eq_refl)
+    destruct (K kids is st2 s1 f0 WK KS SK (conj L1 (conj P1 O1)) eq_refl)
       as (bs & (L2 & P2 & O2) & D2 & T2 & EK & J2).
     set (s2 := run_from s1 (toks is)) in *.
     (* end tag *)
@@ -526,10 +526,10 @@ Proof.
     destruct (end_tag_step s2 (add_kids f0 bs) (f :: r) name L2 P2 O2 eq_refl) as (PN & TP & L3 & P3 & O3 & D3).
     exists (close_frame (add_kids f0 bs)).
     split; [split; [exact L3|split; [exact P3|exact O3]]|].
-    split; [congruence|]. split; [congruence|]. split; [|split; [reflexivity|exact J3]].
+    split; [congruence|]. split; [congruence|]. split; [|split; [reflexivity|subst st2; reflexivity]].
     unfold close_frame, add_kids, f0. simpl. rewrite app_nil_r. rewrite <- EK. rewrite map_rev. reflexivity.
   - (* text *)
-    simpl in SG. injection SG as E0 E1 E2. subst items st' ph'.
+    simpl in SG. injection SG as E0 E1. subst items st'.
     destruct (append_text_cur_live s t L) as (L2 & P2 & N2); [rewrite O; discriminate|].
     exists (BText t). change (toks [IText t]) with [TChars t]. cbn [run_from fold_left]. unfold step. rewrite PH.
     assert (OT : topen (append_text_cur s t) = add_kids f [BText t] :: r).
@@ -539,7 +539,7 @@ Proof.
     split; [split; [exact L2|split; [congruence|exact OT]]|].
     unfold append_text_cur. rewrite O. simpl. auto.
   - (* comment *)
-    simpl in SG. injection SG as E0 E1 E2. subst items st' ph'.
+    simpl in SG. injection SG as E0 E1. subst items st'.
     destruct (append_cur_live s (BComment c) L) as (L2 & P2 & N2); [rewrite O; discriminate|simpl; auto|].
     exists (BComment c). change (toks [IComment c]) with [TComment c]. cbn [run_from fold_left]. unfold step. rewrite PH.
     assert (OT : topen (append_cur s (BComment c)) = add_kids f [BComment c] :: r).
@@ -547,7 +547,7 @@ Proof.
     split; [split; [exact L2|split; [congruence|exact OT]]|].
     unfold append_cur. rewrite O. simpl. auto.
   - (* processing instruction *)
-    simpl in SG. injection SG as E0 E1 E2. subst items st' ph'.
+    simpl in SG. injection SG as E0 E1. subst items st'.
     destruct (append_cur_live s (BPi tg d) L) as (L2 & P2 & N2); [rewrite O; discriminate|simpl; auto|].
     exists (BPi tg d). change (toks [IPi tg d]) with [TPi tg d]. cbn [run_from fold_left]. unfold step. rewrite PH.
     assert (OT : topen (append_cur s (BPi tg d)) = add_kids f [BPi tg d] :: r).
@@ -556,27 +556,27 @@ Proof.
     unfold append_cur. rewrite O. simpl. auto.
 Qed.
 
-Lemma forest_roundtrip : forall l st ph hon is st' ph' s f r,
+Lemma forest_roundtrip : forall l st is st' s f r,
   (fix all (l : list xnode) : bool := match l with [] => true | k :: r => node_wf k && all r end) l = true ->
   kids_shape (starts_text (fkids f)) l = true ->
-  J st ph hon -> ser_nodes_g l st ph = (is, st', ph', false) ->
-  live_at s f r -> RELs hon (ctx_of (f :: r)) ->
+  no_none st -> ser_nodes l st = (is, st') ->
+  live_at s f r -> RELs st (ctx_of (f :: r)) ->
   exists bs, live_at (run_from s (toks is)) (add_kids f bs) r /\
              tdoc (run_from s (toks is)) = tdoc s /\ tpost (run_from s (toks is)) = tpost s /\
-             map erase (rev bs) = l /\ J st' ph' hon.
+             map erase (rev bs) = l /\ st' = st.
 Proof.
-  induction l as [|k rest IHl]; intros sa pa hon isx sb pb sx fr r WA KSx Ja Sx LA R.
-  - simpl in Sx. injection Sx as E0 E1 E2. subst isx sb pb. exists []. rewrite add_kids_nil.
+  induction l as [|k rest IHl]; intros st isx sb sx fr r WA KSx HN Sx LA R.
+  - simpl in Sx. injection Sx as E0 E1. subst isx sb. exists []. rewrite add_kids_nil.
     simpl. repeat split; auto; apply LA.
-  - simpl in Sx. destruct (ser_node_g k sa pa) as [[[a sa1] pa1] fa] eqn:SN.
-    destruct (ser_nodes_g rest sa1 pa1) as [[[b sa2] pa2] fb] eqn:SR.
-    injection Sx as E0 E1 E2 E3. subst isx sb pb. apply orb_false_iff in E3. destruct E3 as [Fa Fb]. subst fa fb.
+  - cbn [ser_nodes] in Sx. destruct (ser_node k st) as [a sa1] eqn:SN.
     apply andb_true_iff in WA. destruct WA as [WA1 WA].
     cbn [kids_shape] in KSx. apply andb_true_iff in KSx. destruct KSx as [KS1 KS2].
     apply andb_true_iff in KS1. destruct KS1 as [KS1 KD].
-    destruct (node_roundtrip k sa pa hon a sa1 pa1 sx fr r WA1 KD KS1 Ja SN LA R)
+    destruct (node_roundtrip k st a sa1 sx fr r WA1 KD KS1 HN SN LA R)
       as (bk & LB & DB & TB & EB & XB & JB).
-    destruct (IHl sa1 pa1 hon b sa2 pa2 (run_from sx (toks a)) (add_kids fr [bk]) r WA) as (bs & LC & DC & TC & EC & JC); auto.
+    subst sa1. destruct (ser_nodes rest st) as [b sa2] eqn:SR.
+    injection Sx as E0 E1. subst isx sb.
+    destruct (IHl st b sa2 (run_from sx (toks a)) (add_kids fr [bk]) r WA) as (bs & LC & DC & TC & EC & JC); auto.
     { unfold add_kids. simpl fkids. simpl app.
       replace (starts_text (bk :: fkids fr)) with (is_text k)
         by (rewrite <- XB; destruct bk; reflexivity).
@@ -608,24 +608,24 @@ Definition misc_b (n : xnode) : bnode :=
   | XText t => BText t | XElem nm a _ => BElem nm a ([], []) []
   end.
 
-Lemma ser_misc : forall l st ph, forallb is_prolog l = true ->
-  ser_nodes_g l st ph = (map misc_item l, st, ph, false).
+Lemma ser_misc : forall l st, forallb is_prolog l = true ->
+  ser_nodes l st = (map misc_item l, st).
 Proof.
-  induction l as [|n l IH]; intros st ph H; [reflexivity|].
+  induction l as [|n l IH]; intros st H; [reflexivity|].
   simpl in H. apply andb_true_iff in H. destruct H as [H1 H2].
-  cbn [ser_nodes_g]. destruct n; try discriminate; simpl; rewrite IH; auto.
+  cbn [ser_nodes]. destruct n; try discriminate; simpl; rewrite IH; auto.
 Qed.
 
-Lemma ser_nodes_g_app : forall a b st ph,
-  ser_nodes_g (a ++ b) st ph =
-  (let '(ia, st1, ph1, fa) := ser_nodes_g a st ph in
-   let '(ib, st2, ph2, fb) := ser_nodes_g b st1 ph1 in (ia ++ ib, st2, ph2, fa || fb)).
+Lemma ser_nodes_app : forall a b st,
+  ser_nodes (a ++ b) st =
+  (let (ia, st1) := ser_nodes a st in
+   let (ib, st2) := ser_nodes b st1 in (ia ++ ib, st2)).
 Proof.
-  induction a as [|n a IH]; intros b st ph.
-  - simpl. destruct (ser_nodes_g b st ph) as [[[ib st2] ph2] fb]. reflexivity.
-  - cbn [app ser_nodes_g]. destruct (ser_node_g n st ph) as [[[x st1] ph1] fx]. rewrite IH.
-    destruct (ser_nodes_g a st1 ph1) as [[[ia sa] pa] fa].
-    destruct (ser_nodes_g b sa pa) as [[[ib sb] pb] fb]. rewrite app_assoc, orb_assoc. reflexivity.
+  induction a as [|n a IH]; intros b st.
+  - simpl. destruct (ser_nodes b st) as [ib st2]. reflexivity.
+  - cbn [app ser_nodes]. destruct (ser_node n st) as [x st1]. rewrite IH.
+    destruct (ser_nodes a st1) as [ia sa].
+    destruct (ser_nodes b sa) as [ib sb]. rewrite app_assoc. reflexivity.
 Qed.
 
 Lemma is_misc_prolog : forall l, forallb is_misc l = true -> forallb is_prolog l = true.
@@ -703,48 +703,39 @@ Proof.
 Qed.
 
 (* C17_roundtrip at token level: for a document of the parser's shape
-   (prolog of comments / PIs / doctype, one root element, epilog of comments /
-   PIs; no adjacent text nodes; names that print and split back; xml / xmlns
-   fixed; attributes are attributes with distinct expanded names) on which the
-   serializer's bookkeeping defects do not come into play ([ser_clean]), the
-   tokens denoted by the serializer's items rebuild the same document *)
-Theorem roundtrip_tokens_outside_finding : forall pre name attrs ks post,
+   (prolog of comments / PIs / at most one doctype, one root element, epilog of
+   comments / PIs; no adjacent text nodes; names that print and split back;
+   xml / xmlns fixed; attributes are attributes with distinct expanded names;
+   one prefix = one URI per tag) the tokens denoted by the serializer's items
+   rebuild the same document.  No condition on the serializer's behaviour is
+   left: the five defects of DESIGN 6.3 row 10 are repaired in /repo. *)
+Theorem roundtrip_tokens : forall pre name attrs ks post,
   let kids := pre ++ XElem name attrs ks :: post in
   forallb is_prolog pre = true -> dt_ok false pre = true -> forallb is_misc post = true ->
   node_wf (XElem name attrs ks) = true ->
-  ser_clean kids = true ->
   reparse kids = map strip_ids kids.
 Proof.
-  intros pre name attrs ks post kids HP HD HM WF CL.
-  unfold ser_clean in CL. apply negb_true_iff in CL.
-  unfold reparse, ser_doc.
-  rewrite <- (ser_nodes_g_erase kids [] []) in * by reflexivity.
-  unfold kids in *. clear kids.
-  rewrite ser_nodes_g_app in *. rewrite (ser_misc pre [] [] HP) in *.
-  change (XElem name attrs ks :: post) with ([XElem name attrs ks] ++ post) in *.
-  rewrite ser_nodes_g_app in *. cbn [ser_nodes_g] in *.
-  destruct (ser_node_g (XElem name attrs ks) [] []) as [[[ri st1] ph1] f1] eqn:SR.
-  rewrite (ser_misc post st1 ph1 (is_misc_prolog _ HM)) in *.
-  simpl in CL. rewrite !orb_false_r in CL. subst f1.
-  rewrite !app_nil_r in *. simpl fst.
-  (* the root, step by step *)
-  rewrite ser_node_g_elem in SR.
-  destruct (start_elem_g_item [] [] name attrs) as [decls DI].
-  destruct (start_elem_g [] [] name attrs) as [[[i1 sa] pa] fa] eqn:SE. simpl in DI. subst i1.
-  destruct (ser_nodes_g ks sa pa) as [[[is sb] pb] fb] eqn:SK.
-  destruct (end_elem_g sb pb name) as [[i2 sc] pc] eqn:EE.
-  injection SR as E0 E1 E2 E3. subst ri st1 ph1.
-  apply orb_false_iff in E3. destruct E3 as [F1 F2]. subst fa fb.
-  assert (J0 : J [] [] []) by exact I.
-  destruct (start_elem_g_ok [] [] [] _ _ _ _ _ _ J0 SE eq_refl) as (NB & AB & JA).
-  destruct (end_elem_g_ok _ _ _ _ _ _ _ (proj2 (ser_nodes_g_ok ks _ _ _ _ _ _ _ JA SK eq_refl)) EE) as [EI _].
-  subst i2.
+  intros pre name attrs ks post kids HP HD HM WF.
+  unfold reparse, ser_doc. unfold kids. clear kids.
+  rewrite ser_nodes_app. rewrite (ser_misc pre [] HP).
+  change (XElem name attrs ks :: post) with ([XElem name attrs ks] ++ post).
+  rewrite ser_nodes_app. cbn [ser_nodes].
   cbn [node_wf] in WF. apply andb_true_iff in WF. destruct WF as [WF WK].
   apply andb_true_iff in WF. destruct WF as [EW KS].
-  pose proof (start_elem_g_decls _ _ _ _ _ _ _ _ SE) as DS.
+  assert (EC : elem_cons name attrs = true).
+  { unfold elem_wf in EW. apply andb_true_iff in EW. apply EW. }
+  assert (N0 : no_none []) by (intros m k []).
+  (* the root, step by step *)
+  rewrite ser_node_elem.
+  destruct (start_elem_ok [] name attrs N0 EC) as (decls & SE & N1 & NB & AB & DS). rewrite SE.
+  destruct (ser_nodes ks [decls]) as [is sb] eqn:SK. cbn [end_elem].
+  rewrite (ser_misc post (tl sb) (is_misc_prolog _ HM)).
+  simpl fst. rewrite !app_nil_r.
   (* run the builder *)
   unfold parse_raw, parse_tokens, run.
-  rewrite map_app. rewrite (toks_eq _). simpl (map tokenize [REof]).
+  rewrite (map_app tokenize). rewrite (toks_eq _). simpl (map tokenize [REof]).
+  change (IStart name decls attrs :: (is ++ [IEnd name]) ++ map misc_item post)
+    with ((IStart name decls attrs :: is ++ [IEnd name]) ++ map misc_item post).
   rewrite !toks_app, !run_from_app.
   assert (L0 : Live tb_init) by (unfold Live, docs_ok, nss_ok; simpl; repeat split; auto).
   destruct (prolog_run pre tb_init HP HD L0 eq_refl eq_refl eq_refl) as (LA & PA & OA & TA & DA).
@@ -758,13 +749,14 @@ Proof.
   set (s1 := step s0 (tokenize (item_rtoken (IStart name decls attrs)))) in *.
   set (f0 := mkf name attrs (qual name, item_raws decls attrs) []) in *.
   rewrite OA in O1.
-  assert (EWc := EW). unfold elem_wf in EWc. apply andb_true_iff in EWc. destruct EWc as [EWc _].
-  apply andb_true_iff in EWc. destruct EWc as [EWc AW]. apply andb_true_iff in EWc. destruct EWc as [NW FW].
+  assert (AW : forallb attr_wf attrs = true).
+  { unfold elem_wf in EW. apply andb_true_iff in EW. destruct EW as [EW' _].
+    apply andb_true_iff in EW'. destruct EW' as [EW' _]. apply andb_true_iff in EW'. apply EW'. }
   assert (R1 : RELs [decls] (ctx_of [f0])).
   { assert (R0 : RELs [] []) by exact I.
     apply (RELs_cons [] [] decls attrs R0); auto. eapply decls_wf_of; eauto. }
   rewrite toks_app, run_from_app.
-  destruct (forest_roundtrip ks sa pa [decls] is sb pb s1 f0 [] WK KS JA SK (conj L1 (conj P1 O1)) R1)
+  destruct (forest_roundtrip ks [decls] is sb s1 f0 [] WK KS N1 SK (conj L1 (conj P1 O1)) R1)
     as (bs & (L2 & P2 & O2) & D2 & T2 & EK & J2).
   set (s2 := run_from s1 (toks is)) in *.
   change (toks [IEnd name]) with [tokenize (item_rtoken (IEnd name))]. cbn [run_from fold_left].
@@ -794,8 +786,7 @@ Fixpoint split_root (l : list xnode) : option (list xnode * xnode * list xnode) 
 Definition rt_hyps (kids : list xnode) : bool :=
   match split_root kids with
   | Some (pre, root, post) =>
-    forallb is_prolog pre && dt_ok false pre && forallb is_misc post && node_wf root &&
-    ser_clean kids
+    forallb is_prolog pre && dt_ok false pre && forallb is_misc post && node_wf root
   | None => false
   end.
 
@@ -815,9 +806,8 @@ Proof.
   destruct (split_root kids) as [[[pre root] post]|] eqn:S; [|discriminate].
   destruct (split_root_app _ _ _ _ S) as [E (nm & a & k & R)]. subst root kids.
   apply andb_true_iff in H. destruct H as [H H4].
-  apply andb_true_iff in H. destruct H as [H H3]. apply andb_true_iff in H. destruct H as [H H2].
-  apply andb_true_iff in H. destruct H as [H1 HD].
-  apply roundtrip_tokens_outside_finding; auto.
+  apply andb_true_iff in H. destruct H as [H H3]. apply andb_true_iff in H. destruct H as [H1 HD].
+  apply roundtrip_tokens; auto.
 Qed.
 
 (* non-vacuity: <!DOCTYPE r PUBLIC "x" "y"><!--c--><r xmlns="d"><p:a xmlns:p="u" p:x="1" y="&lt;"><p:b/>t&amp;</p:a><c/></r><?t d?> *)
